@@ -198,6 +198,14 @@ func (s *Sched) deadlock() {
 	select {}
 }
 
+// Yield is an explicit scheduling point (used by harness wrappers to make "inside this call" interruptible).
+func Yield(kind string) {
+	if S == nil {
+		return
+	}
+	block("yield:"+kind, nil)
+}
+
 // Choice is a pure data choice point (e.g. map iteration order).
 func Choice(n int, kind string) int {
 	if S == nil || n <= 1 {
